@@ -135,7 +135,7 @@ class IncrementalSage(BaseIncrementalFeatureImportance):
             marginal_prediction = marginal_prediction_tracker.get_normalized()
             marginal_loss = self._loss_function(y_i, marginal_prediction)
             sample_loss = marginal_loss
-            features_not_in_s = set(self.feature_names)
+            features_not_in_s = list(self.feature_names)  # ordered: a set would iterate in string-hash order
             marginal_contributions = {}
             for feature in permutation_chain:
                 features_not_in_s.remove(feature)
